@@ -790,6 +790,20 @@ val filter_next : tcfg -> nat -> dfilter_it -> (fstep * dfilter_it) m
 
 val filter_fuel : dfilter_it -> nat
 
+val filter_of : nat -> dfilter_it m
+
+val set_filter_panicked : nat -> bool -> unit m
+
+val set_filter_pos : nat -> z -> unit m
+
+val set_filter_new : nat -> z -> unit m
+
+val uadd : tcfg -> z -> z -> z m
+
+val filter_pred_at : tcfg -> nat -> eptr -> bool m
+
+val filter_next_at : tcfg -> nat -> nat -> elem option m
+
 val filter_guard : tcfg -> dfilter_it -> unit m
 
 val filter_drop_loop : tcfg -> nat -> dfilter_it -> unit m
